@@ -273,7 +273,7 @@ def instances(tier, seed):
             out.append(Instance('impose_support/n=%d/w=%s/index=%s' % (n, w, index), support_ops('impose_support', n, w, index)))
             if not (w[1] == 0.0 and index == [0, -1]):
                 out.append(Instance('impose_unweighted/n=%d/w=%s/index=%s' % (n, w, index), support_ops('impose_unweighted', n, w, index)))
-        for pairs in ([(0, 1)], [(0, 2), (0, 1)], [(1, -1)], [(0, 1), (1, 2)], [(0, 1), (2, 1)]):
+        for pairs in ([(0, 1)], [(0, 2), (0, 1)], [(1, -1)], [(0, 1), (1, 2)], [(0, 1), (2, 1)], [(0, -1), (n - 1, 1)]):      # (last: one point named -1 and n-1)
             out.append(Instance('impose_collapse/n=%d/w=%s/pairs=%s' % (n, w, pairs), support_ops('impose_collapse', n, w, pairs)))
     for n in ns:
         for w in WEIGHTS[n]:
